@@ -162,7 +162,18 @@ def proof_step(run: Run, thorough: bool, extra_modules: Sequence[str] = ()) -> L
         if not lc_ok:
             broken = broken or list(names)
     axioms = sorted({a for r in res.values() for a in r.get("axioms", [])})
+    # second tie: definitions regenerated from the current source, proved equal to the hand-written model (lib/fragments.py)
+    gen: dict = {}
+    if ok:
+        from . import fragments
+
+        gen = fragments.check(prop)
+        gnames = ["gen:" + n for n in gen.get("names", [])]
+        names = list(names) + gnames
+        broken = list(broken) + ["gen:" + n for n in gen.get("broken", [])]
+        axioms = sorted(set(axioms) | {a for a in gen.get("axioms", []) if a != "sorryAx"})
     run.proof = {
+        "generated": {k: gen.get(k) for k in ("fragments", "skipped", "names", "broken", "errors")} if gen.get("names") else None,
         "obligations": len(names),
         "discharged": len([n for n in names if n not in broken]),
         "names": names,
@@ -282,6 +293,7 @@ def finish(run: Run, mod, level: str = "proof") -> int:
             "property": run.prop,
             "kind": "proof-obligation" if broken else "correspondence",
             "theorems_not_checked": broken, "build_log_tail": run.proof.get("build_log_tail", ""),
+            "generated_from_source": run.proof.get("generated"),
             "escape_hatches": run.proof.get("escape_hatches", []),
             "correspondence_disagreements": run.disagreements[:20],
             "streams": sorted({d["stream"] for d in run.disagreements}),
@@ -308,6 +320,8 @@ def finish(run: Run, mod, level: str = "proof") -> int:
             "Mathlib v4.33.0 (single modules)", "harness/lib + harness/props/%s.py (float→ℚ exact, tolerances)" % run.prop.lower(),
             "Lean driver parser/printer (Deepali/Proto.lean)"],
         "theorems": run.proof.get("names", []),
+        "generated_from_source": run.proof.get("generated") or {"note": "no source fragment is regenerated for this property; "
+                                                               "the tie is the correspondence streams"},
         "theorems_broken": broken,
         "evaluations": max(run.evaluations, 1),
         "distinct_nontrivial": n_distinct,
